@@ -62,8 +62,13 @@ Definition d10_pcfg : pcfg := {|
 
 Inductive outcome := Val (v : Z) | Fail (f : Z).
 Inductive beh := BRet (v : Z) | BRaise (f : Z) | BRetP (q : nat)
-  | BSendRet (q : nat) (m : Z) (v : Z).   (* the method itself does sendOnly(promise q).m(..) [message m], then returns v *)
+  | BSendRet (q : nat) (m : Z) (v : Z)    (* the method itself does sendOnly(promise q).m(..) [message m], then returns v *)
+  | BRetD.                                (* the method returns a Deferred (one per message, identified by the message id);
+                                             the program fires it -- before or after the delivery -- with PFire *)
 Inductive resolution := RVal (v : Z) | RFail (f : Z) | RProm (q : nat).
+(* the Deferred a method returned / will return: still waited for by the resolver of the message's result promise
+   (d.addBoth(resolver) in _deliver), fired before the method returned it, or fired and consumed *)
+Inductive dst := DWait (r : option nat) | DFired (x : resolution) | DDone.
 Record msg := { mid : Z; mbeh : beh; mres : option nat }.
 Inductive watcher := W (w : Z) | Chain (p : nat).
 
@@ -82,13 +87,20 @@ Inductive task :=
 Inductive pev :=
 | ESent (p : nat) (m : Z)                       (* send / sendOnly accepted message m for p *)
 | EDelivered (p : nat) (m : Z) (o : outcome)    (* _deliver ran: method invoked on value / resolver given the failure *)
+| EWhen (p : nat) (w : Z)                       (* when(p) / p._then / p._except registered observer w *)
+| EChained (p q : nat)                          (* p was resolved with the promise q (accepted: p was EVENTUAL) *)
 | EObserved (p : nat) (w : Z) (o : outcome)     (* observer w of p was told o *)
 | ERefused (p : nat) (top : bool)               (* UsageError (top: raised to the caller of the operation) *)
 | ECrash (p : nat) (top : bool).                (* AttributeError: the promise's lists are gone *)
 
-Record ps := { tbl : nat -> option promise; next : nat; queue : list task }.
+Record ps := { tbl : nat -> option promise; next : nat; queue : list task; defs : list (Z * dst) }.
 
-Definition ps0 : ps := {| tbl := fun _ => None; next := 0; queue := [] |}.
+Definition ps0 : ps := {| tbl := fun _ => None; next := 0; queue := []; defs := [] |}.
+
+Definition dget (l : list (Z * dst)) (m : Z) : option dst :=
+  match find (fun x => Z.eqb (fst x) m) l with Some x => Some (snd x) | None => None end.
+Definition set_def (s : ps) (m : Z) (d : dst) : ps :=
+  {| tbl := tbl s; next := next s; queue := queue s; defs := (m, d) :: defs s |}.
 
 Definition fresh : promise :=
   {| pstate := SEventual; ptarget := None; plive := true; ppending := []; pwatch := [] |}.
@@ -97,13 +109,13 @@ Definition upd (t : nat -> option promise) (p : nat) (pr : promise) : nat -> opt
   fun i => if Nat.eqb i p then Some pr else t i.
 
 Definition setp (s : ps) (p : nat) (pr : promise) : ps :=
-  {| tbl := upd (tbl s) p pr; next := next s; queue := queue s |}.
+  {| tbl := upd (tbl s) p pr; next := next s; queue := queue s; defs := defs s |}.
 
 Definition enq (s : ps) (ts : list task) : ps :=
-  {| tbl := tbl s; next := next s; queue := queue s ++ ts |}.
+  {| tbl := tbl s; next := next s; queue := queue s ++ ts; defs := defs s |}.
 
 Definition alloc (s : ps) : ps * nat :=
-  ({| tbl := upd (tbl s) (next s) fresh; next := S (next s); queue := queue s |}, next s).
+  ({| tbl := upd (tbl s) (next s) fresh; next := S (next s); queue := queue s; defs := defs s |}, next s).
 
 Definition ord {A} (o : iterorder) (l : list A) : list A := match o with Forward => l | Backward => rev l end.
 Definition put {A} (p : endpos) (l : list A) (x : A) : list A := match p with Tail => l ++ [x] | Head => x :: l end.
@@ -168,8 +180,9 @@ Definition resolve_call (c : pcfg) (top : bool) (s : ps) (p : nat) (x : resoluti
                match tbl s q with
                | None => (s, [])
                | Some _ =>
-                   chain_to c top (setp s p {| pstate := SChained; ptarget := ptarget pr; plive := plive pr;
-                                               ppending := ppending pr; pwatch := pwatch pr |}) p q
+                   let '(s1, e) := chain_to c top (setp s p {| pstate := SChained; ptarget := ptarget pr; plive := plive pr;
+                                                                ppending := ppending pr; pwatch := pwatch pr |}) p q in
+                   (s1, EChained p q :: e)
                end
            end
   end.
@@ -197,16 +210,41 @@ Definition when_op (c : pcfg) (s : ps) (p : nat) (w : Z) : ps * list pev :=
       if pc_wait_on c (pstate pr) then
         if plive pr
         then (setp s p {| pstate := pstate pr; ptarget := ptarget pr; plive := true; ppending := ppending pr;
-                          pwatch := pwatch pr ++ [W w] |}, [])
+                          pwatch := pwatch pr ++ [W w] |}, [EWhen p w])
         else (s, [ECrash p true])
       else match ptarget pr with
-           | Some o => (s, [EObserved p w o])
+           | Some o => (s, [EWhen p w; EObserved p w o])
            | None => (s, [ECrash p true])
            end
   end.
 
 Definition resolver (c : pcfg) (s : ps) (r : option nat) (x : resolution) : ps * list pev :=
   match r with None => (s, []) | Some r => resolve_call c false s r x end.
+
+(* the method of message m runs on a value: a re-entrant send happens first, inside the call *)
+Definition meth_send (c : pcfg) (s : ps) (m : msg) : ps * list pev :=
+  match mbeh m with
+  | BSendRet q m2 _ => send_op c s q m2 (BRet 0) false
+  | _ => (s, [])
+  end.
+
+(* ... then it returns: what the resolver of the result promise is called with now (None: the method returned a
+   Deferred that has not fired yet: d.addBoth(resolver) waits).  nx = number of promises when the method started *)
+Definition meth_result (nx : nat) (s0 : ps) (m : msg) : ps * option resolution :=
+  match mbeh m with
+  | BRet x => (s0, Some (RVal x))
+  | BRaise f => (s0, Some (RFail f))
+  | BRetP q => (s0, Some (if Nat.ltb q nx then RProm q else RVal 0))
+  | BSendRet _ _ x => (s0, Some (RVal x))
+  | BRetD => match dget (defs s0) (mid m) with
+             | None => (set_def s0 (mid m) (DWait (mres m)), None)
+             | Some (DFired x) => (set_def s0 (mid m) DDone, Some x)
+             | Some _ => (s0, None)
+             end
+  end.
+
+Definition resolver_opt (c : pcfg) (s : ps) (r : option nat) (x : option resolution) : ps * list pev :=
+  match x with Some x => resolver c s r x | None => (s, []) end.
 
 Definition run_task (c : pcfg) (s : ps) (t : task) : ps * list pev :=
   match t with
@@ -219,18 +257,10 @@ Definition run_task (c : pcfg) (s : ps) (t : task) : ps * list pev :=
           | Some (Fail f) =>
               let '(s1, e) := resolver c s (mres m) (RFail f) in (s1, EDelivered p (mid m) (Fail f) :: e)
           | Some (Val v) =>
-              (* the method runs: a re-entrant send happens first, inside the call *)
-              let '(s0, e0) := match mbeh m with
-                               | BSendRet q m2 _ => send_op c s q m2 (BRet 0) false
-                               | _ => (s, [])
-                               end in
-              let x := match mbeh m with
-                       | BRet x => RVal x
-                       | BRaise f => RFail f
-                       | BRetP q => if Nat.ltb q (next s) then RProm q else RVal 0
-                       | BSendRet _ _ x => RVal x
-                       end in
-              let '(s1, e) := resolver c s0 (mres m) x in (s1, EDelivered p (mid m) (Val v) :: e0 ++ e)
+              let '(s0, e0) := meth_send c s m in
+              let '(s0', x) := meth_result (next s) s0 m in
+              let '(s1, e) := resolver_opt c s0' (mres m) x in
+              (s1, EDelivered p (mid m) (Val v) :: e0 ++ e)
           end
       end
   | TCallback p (W w) o => (s, [EObserved p w o])
@@ -240,7 +270,7 @@ Definition run_task (c : pcfg) (s : ps) (t : task) : ps * list pev :=
 Definition run_one (c : pcfg) (s : ps) : ps * list pev :=
   match queue s with
   | [] => (s, [])
-  | t :: q' => run_task c {| tbl := tbl s; next := next s; queue := q' |} t
+  | t :: q' => run_task c {| tbl := tbl s; next := next s; queue := q'; defs := defs s |} t
   end.
 
 Fixpoint run_n (c : pcfg) (n : nat) (s : ps) : ps * list pev :=
@@ -252,12 +282,24 @@ Fixpoint run_n (c : pcfg) (n : nat) (s : ps) : ps * list pev :=
 (* one reactor turn: the tasks queued at its start run, in order; what they queue waits *)
 Definition pturn (c : pcfg) (s : ps) : ps * list pev := run_n c (List.length (queue s)) s.
 
+(* d.callback(x) on the Deferred of message m.  Not returned by the method yet: it is remembered as fired.  Returned and
+   waited for: the resolver runs now, inside the Deferred (a UsageError stays in the Deferred: top = false).  Fired
+   before: AlreadyCalledError in Twisted; the harness never does it, the model ignores it. *)
+Definition fire_def (c : pcfg) (s : ps) (m : Z) (x : resolution) : ps * list pev :=
+  if (match x with RProm q => negb (Nat.ltb q (next s)) | _ => false end) then (s, []) else
+  match dget (defs s) m with
+  | None => (set_def s m (DFired x), [])
+  | Some (DWait r) => resolver c (set_def s m DDone) r x
+  | Some _ => (s, [])
+  end.
+
 Inductive pop :=
 | PNew
 | PSend (p : nat) (m : Z) (b : beh)
 | PSendOnly (p : nat) (m : Z) (b : beh)
 | PWhen (p : nat) (w : Z)
 | PResolve (p : nat) (x : resolution)
+| PFire (m : Z) (x : resolution)       (* the program fires the Deferred of message m: d.callback(value / Failure / promise) *)
 | PTurn.
 
 Definition pstep (c : pcfg) (s : ps) (o : pop) : ps * list pev :=
@@ -268,6 +310,7 @@ Definition pstep (c : pcfg) (s : ps) (o : pop) : ps * list pev :=
   | PWhen p w => when_op c s p w
   | PResolve p (RProm q) => if Nat.ltb q (next s) then resolve_call c true s p (RProm q) else (s, [])
   | PResolve p x => resolve_call c true s p x
+  | PFire m x => fire_def c s m x
   | PTurn => pturn c s
   end.
 
@@ -299,6 +342,53 @@ Fixpoint queued_for (p : nat) (q : list task) : list Z :=
 Definition pending_of (s : ps) (p : nat) : list Z :=
   match tbl s p with Some pr => map mid (ppending pr) | None => [] end.
 
+(* observers: registered / told / whose callback is scheduled / still waiting in _watchers *)
+Fixpoint whens (p : nat) (t : list pev) : list Z :=
+  match t with
+  | [] => []
+  | EWhen p' w :: t' => if Nat.eqb p' p then w :: whens p t' else whens p t'
+  | _ :: t' => whens p t'
+  end.
+Fixpoint observed (p : nat) (t : list pev) : list Z :=
+  match t with
+  | [] => []
+  | EObserved p' w _ :: t' => if Nat.eqb p' p then w :: observed p t' else observed p t'
+  | _ :: t' => observed p t'
+  end.
+Fixpoint cb_for (p : nat) (q : list task) : list Z :=
+  match q with
+  | [] => []
+  | TCallback p' (W w) _ :: q' => if Nat.eqb p' p then w :: cb_for p q' else cb_for p q'
+  | _ :: q' => cb_for p q'
+  end.
+Fixpoint wids (l : list watcher) : list Z :=
+  match l with [] => [] | W w :: l' => w :: wids l' | Chain _ :: l' => wids l' end.
+Definition watching (s : ps) (p : nat) : list Z :=
+  match tbl s p with Some pr => wids (pwatch pr) | None => [] end.
+
+(* chain links: how often `Chain p` (the pending call of p._resolve2) occurs in a watcher list / among the scheduled
+   callbacks / in all the watcher lists of the first n promises *)
+Fixpoint cnt (p : nat) (l : list watcher) : nat :=
+  match l with
+  | [] => O
+  | Chain p' :: l' => (if Nat.eqb p' p then 1 else 0) + cnt p l'
+  | W _ :: l' => cnt p l'
+  end.
+Fixpoint cnt_q (p : nat) (q : list task) : nat :=
+  match q with
+  | [] => O
+  | TCallback _ (Chain p') _ :: q' => (if Nat.eqb p' p then 1 else 0) + cnt_q p q'
+  | _ :: q' => cnt_q p q'
+  end.
+Definition watch_of (o : option promise) : list watcher := match o with Some pr => pwatch pr | None => [] end.
+Fixpoint cnt_tbl (p : nat) (t : nat -> option promise) (n : nat) : nat :=
+  match n with O => O | S k => cnt_tbl p t k + cnt p (watch_of (t k)) end.
+Definition nlinks (p : nat) (s : ps) : nat := cnt_tbl p (tbl s) (next s) + cnt_q p (queue s).
+Definition is_chained (s : pst) : bool := match s with SChained => true | _ => false end.
+(* the number of links a promise must have: one while CHAINED, none otherwise *)
+Definition want_links (s : ps) (p : nat) : nat :=
+  match tbl s p with Some pr => if is_chained (pstate pr) then 1%nat else O | None => O end.
+
 (* the outcome an event reports about promise p, if it reports one *)
 Definition outcome_of (p : nat) (e : pev) : option outcome :=
   match e with
@@ -313,6 +403,8 @@ Definition enc_pev (e : pev) : list Z :=
   | ESent p m => [1; Z.of_nat p; m]
   | EDelivered p m (Val v) => [2; Z.of_nat p; m; v]
   | EDelivered _ _ (Fail _) => []                (* not observable: nothing is invoked *)
+  | EWhen _ _ => []                              (* bookkeeping of the model: the call itself *)
+  | EChained _ _ => []
   | EObserved p w (Val v) => [3; Z.of_nat p; w; 0; v]
   | EObserved p w (Fail f) => [3; Z.of_nat p; w; 1; f]
   | ERefused p true => [4; Z.of_nat p]
